@@ -172,6 +172,13 @@ def defaults_family():
                                   hooks={'sweeten': [('remove_defaults',)]}, defaults={'l': []})], 'root': ('cls', 'K')}
     # (l=[] is dropped by the override and comes back as the signature default None: the documented idiom
     # normalises None to [] inside __init__, which the generated classes do not do, so [] is not a value here)
+    spec_c = {'classes': BASE + [_K([('r', 'int'), ('l', ('opt', ('list', 'int')), None), ('d', ('opt', ('dict', 'str', 'int')), None),
+                                     ('s', ('opt', 'str'), None), ('n', ('opt', 'int'), None)],
+                                    hooks={'sweeten': [('remove_defaults',)]})], 'root': ('list', ('cls', 'K'))}
+    # empty collections / falsy scalars are values of their own, not the default None
+    fam.append(('defaults-collections', spec_c,
+                lambda b: [[b.classes['K'](1, l, dd, s, n)] for l in (None, [], [1]) for dd in (None, {}, {'a': 1})
+                           for s, n in ((None, None), ('', 0), ('x', 1))]))
     fam.append(('defaults-override', spec, lambda b: [b.classes['K'](1, l, e) for l in (None, [1]) for e in (None, list(b.classes['E'])[0])]))
     return fam
 
